@@ -32,6 +32,8 @@ FLAVOURS = {
     "ann_dict": ("AnnD", {"alias": "AnnD", "exact": "Dict[str, int]", "origin": "dict"}, "{'a': 1}", "{'b': 2}"),
     "ann_date": ("AnnDate", {"alias": "AnnDate", "exact": "datetime.date"}, "datetime.date(2020, 1, 2)", "'2020-01-02'"),
     "plain_list": ("List[int]", {"exact": "List[int]", "origin": "list"}, "[1, 2]", "[3]"),
+    # only used by the 'format' entry point: a type the msgpack format dialect itself customises (pass_through)
+    "fmt_bytes": ("bytes", {"exact": "bytes"}, "b'ab'", "b'cd'"),
 }
 PRE = """
 AnnL = Annotated[List[int], 'tag']
@@ -56,7 +58,7 @@ class Strat(SerializationStrategy):
 
 
 def n_cases(tier):
-    return 2500 if tier == "quick" else 60000
+    return 15000 if tier == "quick" else 300000
 
 
 def worker_setup(tier, rec):
@@ -94,10 +96,10 @@ def run_case(seed, tier, rec, st):
     try:
         fam.exec_src(PRE)
         mod = fam.module
-        flavour = rng.choice(list(FLAVOURS))
+        entry = rng.choice(["mixin", "mixin", "codec", "nested", "format"])
+        flavour = "fmt_bytes" if entry == "format" else rng.choice([f for f in FLAVOURS if f != "fmt_bytes"])
         ann, keymap, val_src, wire_src = FLAVOURS[flavour]
         keys = [k for k in KEYS if k in keymap]
-        entry = rng.choice(["mixin", "mixin", "codec", "nested"])
         universe = [("field_opt", None), ("field_strat", None)]
         srcs = [s for s in SOURCES if not (s == "dd" and entry != "codec") and not (s == "call" and entry == "codec")]
         universe += [(s, k) for s in srcs for k in keys]
@@ -134,7 +136,7 @@ def run_case(seed, tier, rec, st):
         lines = ["class CallD(Dialect):", f"    serialization_strategy = {reg('call')}",
                  "class CfgD(Dialect):", f"    serialization_strategy = {reg('cfgd')}",
                  "class DD(Dialect):", f"    serialization_strategy = {reg('dd')}",
-                 "@dataclass", "class M(" + ("DataClassDictMixin" if entry != "codec" else "") + "):"]
+                 "@dataclass", "class M(" + ("DataClassMessagePackMixin" if entry == "format" else "DataClassDictMixin" if entry != "codec" else "") + "):"]
         lines[-1] = lines[-1].replace("()", "")
         fargs = [f"default_factory=lambda: {val_src}"]
         if meta:
@@ -181,6 +183,9 @@ def run_case(seed, tier, rec, st):
             return None
         value = eval(val_src, mod.__dict__)
         wire = eval(wire_src, mod.__dict__)
+        if entry == "format":
+            format_entry(rec, rng, mod, M, kw, winner, styles, value, wire, det, facts, enabled)
+            return
         # ---- serialize
         for direction in ("S", "D"):
             rec.evaluation()
@@ -229,6 +234,55 @@ def run_case(seed, tier, rec, st):
                     "styles": {f"{s}:{k}": v for (s, k), v in styles.items()}}) if len(enabled) >= 3 else None
     finally:
         fam.dispose()
+
+
+def format_entry(rec, rng, mod, M, kw, winner, styles, value, wire, det, facts, enabled):
+    """msgpack mixin: the format dialect (bytes: pass_through) is the lowest level for to_msgpack/from_msgpack and
+    must not exist for to_dict/from_dict; both families are called on the same class, with the same dialect, in
+    random order (the per-dialect compiled methods are cached per format)."""
+    import base64
+    ident = lambda x, **k: x
+    calls = [("to_msgpack", "S"), ("to_dict", "S"), ("from_msgpack", "D"), ("from_dict", "D")]
+    rng.shuffle(calls)
+    for name, direction in calls:
+        rec.evaluation()
+        w = winner(direction)
+        try:
+            if name == "to_msgpack":
+                out = M(x=value).to_msgpack(encoder=ident, **kw)["x"]
+                given = value
+            elif name == "to_dict":
+                out = M(x=value).to_dict(**kw)["x"]
+                given = value
+            elif name == "from_msgpack":
+                given = wire
+                out = M.from_msgpack({"x": given}, decoder=ident, **kw).x
+            else:
+                given = base64.encodebytes(wire).decode() if w is None else wire
+                out = M.from_dict({"x": given}, **kw).x
+        except Exception as e:
+            rec.violation(f"exception:{name}:{type(e).__name__}", det(error=f"{type(e).__name__}: {e}"[:300], expected_winner=repr(w), order=[c[0] for c in calls]), facts)
+            continue
+        if w is None:
+            if name == "to_msgpack" or name == "from_msgpack":
+                ok = out is given            # format dialect: bytes pass through
+            elif name == "to_dict":
+                ok = out == base64.encodebytes(value).decode() and type(out) is str
+            else:
+                ok = out == wire and type(out) is bytes
+        else:
+            stl = styles[w]
+            tag = w[0] if w[1] is None else f"{w[0]}:{w[1]}"
+            if stl in ("pt", "pass_through"):
+                ok = out is given
+            else:
+                ok = isinstance(out, tuple) and len(out) == 3 and out[0] == direction and out[1] == tag and out[2] is given
+        if ok:
+            rec.count("agree")
+            rec.nontrivial(("format", name, tuple(sorted(map(str, enabled))), tuple(c[0] for c in calls)))
+        else:
+            rec.violation(f"wrong-level:format:{name}", det(call=name, order=[c[0] for c in calls], expected_winner=repr(w),
+                                                           observed=repr(out)[:120]), facts)
 
 
 def builtin(flavour, direction, given):
